@@ -201,6 +201,13 @@ def g_eos():
     return methods_group('nohblackboxeos/equations_of_state/eos_library.py', 'EosLibrary', specs)
 
 
+@group('footprint')
+def g_footprint():
+    import footprint
+    fp = footprint.build()
+    return {'Footprint': (footprint.emit(fp), fp)}
+
+
 @group('catalogue')
 def g_catalogue():
     import catalogue
